@@ -49,7 +49,7 @@ STRINGS = STRINGS_CORE + [
 ] + [
     # every control character and every character Python (but not the grammars) counts as white space,
     # inside a string and at its edges
-    "a" + chr(c) + "b" for c in list(range(0, 32)) + [0x7f, 0x85, 0xa0, 0x1680, 0x2028, 0x3000] if chr(c) not in "\t\n\f\x00\x01\x85\xa0"
+    "a" + chr(c) + "b" for c in list(range(0, 32)) + list(range(0x7f, 0xa2)) + [0xad, 0xff, 0x100, 0x1680, 0x2028, 0x3000] if chr(c) not in "\t\n\f\x00\x01\x85\xa0"
 ] + ["\x1erecord", "record\x1c", "\x00a", "a\x00", "\x7fa", "\x1f", "\x0b"]
 
 NUMBERS = [0, 1, -1, 7, 255, -255, 2 ** 63, -(2 ** 64), 0.0, -0.0, 1.5, -2.25, 1e-7, 1e16, 1e300, 0.1,
